@@ -524,23 +524,25 @@ def judge_batch(chk, cases, workdir):
         all_lines += [f'{l} | {o}' for l, o in zip(lines, obs)]
     model = chk.driver('drv_c18', all_lines)
     for case, lines, obs, info, start, ln in spans:
-        findings = []; diffs = []
+        findings = []; diffs = []; covs = []
         if lines is not None:
             for k in range(ln):
                 kind = lines[k].split()[0]
                 parts = [x.strip() for x in model[start + k].split('|')]
                 m_obs, verdict, tag = parts[0], parts[1], parts[2][2:]
+                cov = dict(w.split('=', 1) for w in parts[3][2:].split() if '=' in w) if len(parts) > 3 else {}
                 if m_obs == 'bad-op':
                     diffs.append({'line': lines[k], 'note': 'driver could not parse the line'}); continue
                 if kind not in ('qapp', 'qprog', 'group', 'groupadd', 'opts'): continue
                 i_obs = obs[k] if kind not in ('group', 'groupadd') else model_view_of_group(obs[k])
                 q = {'query_line': lines[k], 'query': describe(lines[k]), 'impl_observation': obs[k], 'model_observation': m_obs}
+                covs.append((kind, cov))
                 if verdict != 'J:ok':
                     clause = verdict[2:]
                     findings.append((signature_of(clause, tag, lines[k]), f'clause "{clause}" violated for {describe(lines[k])}', q, k))
                 if m_obs != i_obs:
                     diffs.append(q)
-        yield case, lines, obs, info, findings, diffs
+        yield case, lines, obs, info, findings, diffs, covs
 
 
 def still_fails_factory(chk, workdir, case, sig, qline):
@@ -551,7 +553,7 @@ def still_fails_factory(chk, workdir, case, sig, qline):
         return c
     def still(items):
         c = rebuild(items)
-        for _, lines, _, _, fs, _ in judge_batch(chk, [c], workdir):
+        for _, lines, _, _, fs, _, _ in judge_batch(chk, [c], workdir):
             return any(f[0] == sig and f[2]['query_line'].split()[:3] == qline.split()[:3] for f in fs)
         return False
     return rebuild, still
@@ -601,7 +603,7 @@ def shrink_doc(chk, workdir, case, sig, qline):
 
 def shrink_opts(chk, workdir, case, sig):
     def still(cfgs):
-        for _, _, _, _, fs, _ in judge_batch(chk, [{'kind': 'opts', 'configs': cfgs}], workdir):
+        for _, _, _, _, fs, _, _ in judge_batch(chk, [{'kind': 'opts', 'configs': cfgs}], workdir):
             return any(f[0] == sig for f in fs)
         return False
     cfgs = [dict(c) for c in case['configs']]
@@ -618,14 +620,8 @@ def shrink_opts(chk, workdir, case, sig):
     return {'kind': 'opts', 'configs': cfgs}
 
 
-def nontrivial_doc(lines, obs):
-    """ a document case is non-trivial when some name is resolved through a pattern chosen among >= 2 matching patterns, or
-        through a model reference, or a homogeneous group gets a sign assignment """
-    return True
-
-
 def run_cases(chk, cases, workdir, stats, do_shrink=True):
-    for case, lines, obs, info, findings, diffs in judge_batch(chk, cases, workdir):
+    for case, lines, obs, info, findings, diffs, covs in judge_batch(chk, cases, workdir):
         stats['evaluations'] += 1
         kind = case['kind'] if case['kind'] == 'opts' else f"doc-{case['path']}"
         stats['case_kinds'][kind] = stats['case_kinds'].get(kind, 0) + 1
@@ -643,11 +639,31 @@ def run_cases(chk, cases, workdir, stats, do_shrink=True):
                 if o.startswith('err:') or ' err:' in o:
                     e = o[o.index('err:'):].split()[0]
                     stats['impl_errors'][e] = stats['impl_errors'].get(e, 0) + 1
-        # non-trivial: at least 4 distinct resolved results (documents) / an option outside its range or a clean-up (options)
-        if case['kind'] == 'doc':
-            if len(results) >= 4: stats['nontrivial'].add(json.dumps(case['items'], sort_keys=True))
-        else:
-            if any(len(c) >= 2 for c in case['configs']): stats['nontrivial'].add(json.dumps(case['configs'], sort_keys=True))
+        # branch statistics from the model's coverage flags, and the non-triviality rule
+        nt = False
+        for kind_, cov in covs:
+            br = stats['branches']
+            def bump(key): br[key] = br.get(key, 0) + 1
+            if kind_ in ('qapp', 'qprog'):
+                bump(f"{kind_}:look={cov.get('look')}")
+                nm = int(cov.get('nmatch', 0))
+                if cov.get('look') == 'pat': bump(f"{kind_}:matching-patterns={'1' if nm == 1 else '2' if nm == 2 else '3+'}")
+                if kind_ == 'qprog':
+                    bump(f"qprog:chain={cov.get('chain')}")
+                    if int(cov.get('ties', 1)) > 1: bump('qprog:tie-between-longest-patterns')
+                    if int(cov.get('chain', 0)) >= 2: nt = True
+                if cov.get('look') == 'pat' and nm >= 2: nt = True
+            elif kind_ in ('group', 'groupadd'):
+                bump(f"{kind_}:sign={cov.get('sign')}")
+                if cov.get('sign') in ('at', 'hash'): nt = True
+            elif kind_ == 'opts':
+                fb = int(cov.get('fallback', 0))
+                bump(f"opts:fallbacks={'0' if fb == 0 else '1' if fb == 1 else '2+'}")
+                if cov.get('cleaned') == '1': bump('opts:synchro-cleaned')
+                if cov.get('forced') == '1': bump('opts:failure-strategy-forced')
+                if fb or cov.get('cleaned') == '1' or cov.get('forced') == '1': nt = True
+        if nt:
+            stats['nontrivial'].add(json.dumps(case['items'] if case['kind'] == 'doc' else case['configs'], sort_keys=True))
         for d in diffs: chk.disagree('Rules', dict(d, case=case))
         seen = set()
         for sig, what, q, k in findings:
@@ -678,7 +694,7 @@ def load_corpus():
 
 def new_stats():
     return {'evaluations': 0, 'case_kinds': {}, 'queries': {}, 'nontrivial': set(), 'impl_errors': {}, 'refused': {}, 'rejections': {},
-            'shrinks': 0}
+            'shrinks': 0, 'branches': {}}
 
 
 def exhaustive_opts():
@@ -721,8 +737,8 @@ def run(chk):
     try:
         run_cases(chk, load_corpus(), workdir, stats)
         seeds = [chk.seed] if quick else core.derive_seeds(chk.seed, 8)
-        ndocs = 220 if quick else 700
-        nopts = 1500 if quick else 5000
+        ndocs = 450 if quick else 900
+        nopts = 2500 if quick else 6000
         samples = []
         for sd in seeds:
             rnd = random.Random(sd)
@@ -751,9 +767,12 @@ def run(chk):
         'rule': 'cases = generated rules documents (1-2 files; names, overlapping patterns, model chains incl. cycles, aliases '
                 'referencing aliases, sign identifiers, in- and out-of-range values; ~4% with patterns that are not regular '
                 'expressions) on both parser paths, each queried for 7 application names x 7 program names + homogeneous groups, '
-                'and sequences of 1-3 option dictionaries; non-trivial = a document with >= 4 distinct resolved results, or an '
-                'option sequence with a dictionary of >= 2 options; distinct = distinct document / dictionary list',
+                'and sequences of 1-3 option dictionaries; non-trivial = a document in which some name is resolved through a pattern '
+                'chosen among >= 2 matching patterns or through a reference chain of >= 2 elements or a group carries a sign; an '
+                'option sequence in which some option falls back / the synchro clean-up removes something / the failure strategy is '
+                'forced; distinct = distinct document / dictionary list',
         'samples': samples, 'case_kinds': stats['case_kinds'], 'queries': stats['queries'],
+        'branches': dict(sorted(stats['branches'].items())),
         'implementation_exceptions': stats['impl_errors'], 'documents_refused': stats['refused'],
         'judge_rejections_by_signature': stats['rejections'],
         'traces_validated_against_impl': stats['evaluations'], 'exhaustive': False,
